@@ -307,6 +307,21 @@ impl FixtureDatabase {
         false
     }
 
+    /// Whether a file lives in a `site-packages` directory (third-party code).
+    /// For files inside the workspace only the part of the path below the workspace root
+    /// counts, so a workspace that itself lives under a directory called `site-packages`
+    /// (or whose path merely contains that text) is not classified as third-party.
+    pub(crate) fn is_site_packages_path(&self, file_path: &Path) -> bool {
+        let workspace = self.workspace_root.lock().unwrap();
+        let relevant = match workspace.as_ref() {
+            Some(ws) => file_path.strip_prefix(ws).unwrap_or(file_path),
+            None => file_path,
+        };
+        relevant
+            .components()
+            .any(|c| c.as_os_str() == "site-packages")
+    }
+
     /// Remove all cached data for a file.
     /// Called when a file is closed or deleted to prevent unbounded memory growth.
     pub fn cleanup_file_cache(&self, file_path: &Path) {
